@@ -102,6 +102,21 @@ var constructs = []construct{
 	{name: "json-access", format: fPolicyJSON, build: func(n int) string {
 		return jpol(rep(`{".":{"left":`, n) + `{"Var":"context"}` + rep(`,"attr":"a"}}`, n))
 	}},
+	// a second key beside the operator key at every level (unknown after / before the known one, two known ones, an
+	// extension name beside a known one, a repeated key, a key differing only in case): a decoder that tries the object
+	// under more than one reading repeats the work of the nested levels once per reading
+	{name: "json-set-stray-after", format: fPolicyJSON, build: func(n int) string { return jpol(rep(`{"Set":[`, n) + `{"Value":1}` + rep(`],"zz":[]}`, n)) }},
+	{name: "json-set-stray-before", format: fPolicyJSON, build: func(n int) string { return jpol(rep(`{"zz":[],"Set":[`, n) + `{"Value":1}` + rep(`]}`, n)) }},
+	{name: "json-not-stray", format: fPolicyJSON, build: func(n int) string { return jpol(rep(`{"!":{"arg":`, n) + `{"Value":true}` + rep(`},"isIpv4":[]}`, n)) }},
+	{name: "json-ext-stray", format: fPolicyJSON, build: func(n int) string { return jpol(rep(`{"ip":[`, n) + `{"Value":"1.2.3.4"}` + rep(`],"zz":[]}`, n)) }},
+	{name: "json-ext-ext", format: fPolicyJSON, build: func(n int) string { return jpol(rep(`{"zz":[{"Value":1}],"ip":[`, n) + `{"Value":"1.2.3.4"}` + rep(`]}`, n)) }},
+	{name: "json-two-known", format: fPolicyJSON, build: func(n int) string { return jpol(rep(`{"Value":1,"Set":[`, n) + `{"Value":1}` + rep(`]}`, n)) }},
+	{name: "json-repeated-key", format: fPolicyJSON, build: func(n int) string { return jpol(rep(`{"Set":[],"Set":[`, n) + `{"Value":1}` + rep(`]}`, n)) }},
+	{name: "json-case-key", format: fPolicyJSON, build: func(n int) string { return jpol(rep(`{"set":[`, n) + `{"Value":1}` + rep(`],"SET":[]}`, n)) }},
+	{name: "json-record-stray", format: fPolicyJSON, build: func(n int) string { return jpol(rep(`{"Record":{"a":`, n) + `{"Value":1}` + rep(`},"zz":[]}`, n)) }},
+	{name: "json-if-stray", format: fPolicyJSON, build: func(n int) string {
+		return jpol(rep(`{"if-then-else":{"if":{"Value":true},"then":{"Value":1},"else":`, n) + `{"Value":1}` + rep(`},"zz":[]}`, n))
+	}},
 	{name: "json-value-set", format: fPolicyJSON, maxN: 3000, extra: overJSONLimit, build: func(n int) string { return jpol(`{"Value":` + rep("[", n) + rep("]", n) + `}`) }},
 	{name: "json-wide-set", format: fPolicyJSON, build: func(n int) string { return jpol(`{"Set":[` + rep(`{"Value":1},`, n) + `{"Value":1}]}`) }},
 	{name: "json-set-many-policies", format: fPolicySetJSON, build: func(n int) string {
@@ -121,6 +136,19 @@ var constructs = []construct{
 	// values, entities, requests
 	{name: "value-set", format: fValueJSON, maxN: 3000, extra: overJSONLimit, build: func(n int) string { return rep("[", n) + rep("]", n) }},
 	{name: "value-record", format: fValueJSON, maxN: 3000, extra: overJSONLimit, build: func(n int) string { return rep(`{"a":`, n) + "1" + rep("}", n) }},
+	// objects that can be read as an escape or as a record (several readings per level)
+	{name: "value-record-entity-key", format: fValueJSON, maxN: 3000, build: func(n int) string {
+		return rep(`{"__entity":{"type":"T","id":"i"},"a":`, n) + "1" + rep("}", n)
+	}},
+	{name: "value-record-extn-key", format: fValueJSON, maxN: 3000, build: func(n int) string {
+		return rep(`{"a":`, n) + "1" + rep(`,"__extn":{"fn":"ip","arg":"1.2.3.4"}}`, n)
+	}},
+	{name: "value-entity-in-entity", format: fValueJSON, maxN: 3000, build: func(n int) string {
+		return rep(`{"__entity":`, n) + `{"type":"T","id":"i"}` + rep("}", n)
+	}},
+	{name: "value-extn-in-extn", format: fValueJSON, maxN: 3000, build: func(n int) string {
+		return rep(`{"__extn":{"fn":"ip","arg":`, n) + `"1.2.3.4"` + rep("}}", n)
+	}},
 	{name: "value-set-open", format: fValueJSON, build: func(n int) string { return rep("[", n) }},
 	{name: "value-wide-set", format: fValueJSON, build: func(n int) string { return "[" + rep("1,", n) + "1]" }},
 	{name: "value-long-string", format: fValueJSON, build: func(n int) string { return `"` + rep("a", n) + `"` }},
